@@ -8,7 +8,8 @@
    model (array ownership, byte order, array subclass) are covered by the implementation-twin
    correspondence of this property (harness/gens2.gen_c10). *)
 From HS Require Import Prelude Cov Map Spec Ops Spec2 Params AtFold MapProofs UpdateProofs HistoryProofs
-     LayoutProofs AccountProofs OpsProofs RebuildProofs CongProofs MultiRefine CongRefine PartialRefine.
+     LayoutProofs AccountProofs OpsProofs RebuildProofs FracdetProofs CongProofs MultiRefine CongRefine PartialRefine
+     RangeProofs RangeRefine RangeAbs FracdetAbs Rehouse.
 Open Scope Z_scope.
 
 Section C10.
@@ -118,6 +119,38 @@ Theorem C10_partial_reads_preserve_equality :
     end.
 Proof. exact read_partial_congruence. Qed.
 
+(* range updates (the slice path) on equal maps give equal maps, coverage mask included *)
+Theorem C10_range_updates_preserve_equality :
+  forall (P : params) (m1 m2 : smap (p_V P)) (o : uop) (rows : list (Z * Z)) (value : p_V P) (na : bool),
+    MapProofs.wf P m1 -> MapProofs.wf P m2 -> abs (p_V P) (p_dv P) m1 = abs (p_V P) (p_dv P) m2 ->
+    (forall r, In r rows -> row_ok P m1 r) -> (forall r, In r rows -> row_ok P m2 r) ->
+    (o = UAdd -> p_sent_nonzero P = true -> NoDup (expand_ranges rows)) ->
+    abs (p_V P) (p_dv P)
+        (update_ranges (p_V P) (p_dv P) (p_vadd P) (p_vor P) (p_vand P) (p_vzero P) (p_is_sent P) (p_sent_nonzero P)
+                       m1 o rows value na) =
+    abs (p_V P) (p_dv P)
+        (update_ranges (p_V P) (p_dv P) (p_vadd P) (p_vor P) (p_vand P) (p_vzero P) (p_is_sent P) (p_sent_nonzero P)
+                       m2 o rows value na).
+Proof. exact ranges_congruence. Qed.
+
+(* equal maps have equal fractional-detection maps at every permitted resolution *)
+Theorem C10_fracdet_maps_of_equal_maps_are_equal :
+  forall (P : params) (m1 m2 : smap (p_V P)) (r : Z),
+    MapProofs.wf P m1 -> MapProofs.wf P m2 -> 0 < r -> nfine m1 mod r = 0 ->
+    abs (p_V P) (p_dv P) m1 = abs (p_V P) (p_dv P) m2 ->
+    abs Z 0 (fracdet_map P m1 r) = abs Z 0 (fracdet_map P m2 r).
+Proof. exact fracdet_congruence. Qed.
+
+(* re-housing on a coarser coverage resolution (the first step of degrading below the coverage resolution)
+   of equal maps gives maps that read the same everywhere *)
+Theorem C10_rehoused_equal_maps_read_the_same :
+  forall (P : params) (n' nf' : Z) (m1 m2 : smap (p_V P)),
+    MapProofs.wf P m1 -> MapProofs.wf P m2 -> 0 <= n' -> 0 < nf' -> n' * nf' = npix (p_V P) m1 ->
+    abs (p_V P) (p_dv P) m1 = abs (p_V P) (p_dv P) m2 ->
+    forall q, 0 <= q < npix (p_V P) m1 ->
+      read (p_V P) (p_dv P) (rehouse P n' nf' m1) q = read (p_V P) (p_dv P) (rehouse P n' nf' m2) q.
+Proof. exact rehouse_congruence. Qed.
+
 Print Assumptions C10_updates_on_equal_maps_give_equal_maps.
 Print Assumptions C10_every_update_history_preserves_equality.
 Print Assumptions C10_scalar_operators_preserve_equality.
@@ -130,3 +163,6 @@ Print Assumptions C10_boolean_map_operators_preserve_equality.
 Print Assumptions C10_multi_map_operations_preserve_equality.
 Print Assumptions C10_partial_reads_preserve_equality.
 Print Assumptions C10_conversions_preserve_equality.
+Print Assumptions C10_range_updates_preserve_equality.
+Print Assumptions C10_fracdet_maps_of_equal_maps_are_equal.
+Print Assumptions C10_rehoused_equal_maps_read_the_same.
